@@ -7,6 +7,7 @@ import (
 	"os"
 
 	"verifharness/internal/c06"
+	"verifharness/internal/c15"
 	"verifharness/internal/c16"
 	"verifharness/internal/common"
 )
@@ -15,11 +16,13 @@ type sub func(tier string, seed int64, outDir string) *common.Meta
 
 var subs = map[string]sub{
 	"c06": c06.Run,
+	"c15": c15.Run,
 	"c16": c16.Run,
 }
 
 var gens = map[string]func(outDir string) error{
 	"registry": c06.GenRegistry,
+	"ruletable": c15.GenRuleTable,
 }
 
 func main() {
